@@ -1,5 +1,8 @@
-From VT Require Import Codec.Packet Codec.SpecCodec.
-From Coq Require Import Lia.
+(* Proofs about Packet.v: binary only for EVENT/ACK; the header scanner of decode_str
+   lands where the encoder wrote the fields. *)
+From VT Require Import Base.PyStrProofs Codec.JsonProofs Codec.Packet Codec.SpecCodec.
+From Coq Require Import Lia ZifyBool ZifyN.
+Open Scope N_scope.
 
 Lemma binary_only_event_ack t data ns id :
   has_bytes data = true -> (t <> EVENT)%Z -> (t <> ACK)%Z ->
@@ -8,4 +11,252 @@ Proof.
   intros Hb H2 H3. unfold ctor. cbn [andb]. rewrite Hb.
   destruct (Z.eqb_spec t EVENT); [contradiction|].
   destruct (Z.eqb_spec t ACK); [contradiction|]. reflexivity.
+Qed.
+
+(* ---- list slicing ---- *)
+Lemma firstn_length_app {A} (a b : list A) : firstn (List.length a) (a ++ b) = a.
+Proof. induction a; cbn; [destruct b; reflexivity|f_equal; assumption]. Qed.
+Lemma skipn_length_app {A} (a b : list A) : skipn (List.length a) (a ++ b) = b.
+Proof. induction a; cbn; [reflexivity|assumption]. Qed.
+Lemma skipn_S_length_app {A} (a b : list A) c : skipn (S (List.length a)) (a ++ c :: b) = b.
+Proof. induction a; cbn; [reflexivity|assumption]. Qed.
+
+(* ---- the phases of decode_str, named ---- *)
+Definition scan_count (ep : str) : Res (N * str) :=
+  match find 45 ep with
+  | Some (S d) =>
+      let dash := S d in
+      if isdigit_str (firstn dash ep) then
+        if Nat.ltb 10 dash then Err ValueError
+        else n <- py_int (firstn dash ep) ;; Ok (n, skipn (S dash) ep)
+      else Ok (0, ep)
+  | _ => Ok (0, ep)
+  end.
+
+Definition strip_query (ns : str) : str :=
+  match find 63 ns with Some q => firstn q ns | None => ns end.
+
+Definition scan_ns (ep : str) : option str * str :=
+  match ep with
+  | 47 :: _ =>
+      let '(ns, rest) := match find 44 ep with
+                         | None => (ep, [])
+                         | Some sep => (firstn sep ep, skipn (S sep) ep)
+                         end in
+      let ns := match find 63 ns with Some q => firstn q ns | None => ns end in
+      (Some ns, rest)
+  | _ => (None, ep)
+  end.
+
+Definition scan_id (ep : str) : Res (option Z * str) :=
+  match ep with
+  | c :: r =>
+      if is_digit c then
+        let i := S (digit_run 99 r) in
+        n <- py_int (firstn i ep) ;;
+        let ep' := skipn i ep in
+        match ep' with
+        | c' :: _ => if is_digit c' then Err ValueError else Ok (Some (Z.of_N n), ep')
+        | [] => Ok (Some (Z.of_N n), ep')
+        end
+      else Ok (None, ep)
+  | [] => Ok (None, ep)
+  end.
+
+Definition decode_rest (loads : str -> Res pv) (t count : N) (ep : str) : Res rpacket :=
+  let '(ns, ep) := scan_ns ep in
+  '(id, ep) <- scan_id ep ;;
+  data <- (match ep with [] => Ok PNone | _ => loads ep end) ;;
+  Ok (mkR (mkPacket (PInt (Z.of_N t)) ns id data) count []).
+
+Lemma decode_str_eq loads c0 ep :
+  decode_str loads (c0 :: ep) =
+  match dec_val c0 with
+  | None => Err ValueError
+  | Some t => '(count, ep) <- scan_count ep ;; decode_rest loads t count ep
+  end.
+Proof. reflexivity. Qed.
+
+(* ---- shapes of the text the encoder writes after the type digit ---- *)
+Definition js_ok (js : str) : Prop := js = [] \/ exists x b, js = x :: b /\ jstart x.
+Definition ns_ok (ns : option str) : Prop :=
+  match ns with None => True | Some s => exists r, s = 47 :: r /\ existsb (N.eqb 44) r = false end.
+Definition id_ok (id : option Z) : Prop :=
+  match id with None => True | Some i => (0 <= i)%Z /\ (List.length (str_of_Z i) <= 100)%nat end.
+Definition nsp_of (ns : option str) : str :=
+  match ns with Some ns => if str_eqb ns [47] then [] else ns ++ [44] | None => [] end.
+Definition ids_of (id : option Z) : str :=
+  match id with Some i => str_of_Z i | None => [] end.
+(* the namespace the decoder reports *)
+Definition ns_dec (ns : option str) : option str :=
+  match ns with
+  | None => None
+  | Some s => if str_eqb s [47] then None else Some (strip_query s)
+  end.
+
+Lemma isdigit_str_false s : forallb is_digit s = false -> isdigit_str s = false.
+Proof. destruct s; cbn [isdigit_str]; auto. Qed.
+
+Lemma is_digit_neq c x : is_digit c = true -> is_digit x = false -> c <> x.
+Proof. intros H1 H2 E; subst; congruence. Qed.
+
+(* (a) no attachment count is read from a non-binary frame *)
+Lemma scan_count_none a rest :
+  forallb is_digit a = true ->
+  (rest = [] \/ exists x b, rest = x :: b /\ is_digit x = false /\ x <> 45) ->
+  scan_count (a ++ rest) = Ok (0, a ++ rest).
+Proof.
+  intros Ha Hr. unfold scan_count.
+  destruct (find 45 (a ++ rest)) as [[|d]|] eqn:F; try reflexivity.
+  destruct Hr as [->|(x & b & -> & Hx & Hx45)].
+  - rewrite app_nil_r in F. rewrite find_absent in F; [discriminate|].
+    intros y Hy. rewrite forallb_forall in Ha. apply is_digit_neq; [auto|exact not_digit_dash].
+  - pose proof (find_after_nondigit 45 a x b (S d) not_digit_dash Ha Hx Hx45 F) as Hf.
+    cbv zeta. rewrite (isdigit_str_false _ Hf). reflexivity.
+Qed.
+
+(* (b) the attachment count of a binary frame *)
+Lemma scan_count_bin n rest : n < 10000000000 ->
+  scan_count (str_of_N n ++ 45 :: rest) = Ok (n, rest).
+Proof.
+  intro Hn. unfold scan_count.
+  rewrite find_app_notin by (apply all_adigit_notin; [apply str_of_N_adigit|reflexivity]).
+  pose proof (str_of_N_nonnil n) as Hnn.
+  assert (Hl : (List.length (str_of_N n) <= 10)%nat) by (apply str_of_N_len; exact Hn).
+  destruct (List.length (str_of_N n)) as [|d] eqn:E; [apply length_zero_iff_nil in E; contradiction|].
+  cbv zeta. rewrite <- E. rewrite firstn_length_app, skipn_S_length_app.
+  rewrite isdigit_str_of_N, py_int_str_of_N.
+  assert (El : Nat.ltb 10 (List.length (str_of_N n)) = false) by (apply Nat.ltb_ge; lia).
+  rewrite El. reflexivity.
+Qed.
+
+(* (c) namespace *)
+Lemma scan_ns_slash r :
+  scan_ns (47 :: r) =
+  let '(ns, rest) := match find 44 (47 :: r) with
+                     | None => (47 :: r, [])
+                     | Some sep => (firstn sep (47 :: r), skipn (S sep) (47 :: r))
+                     end in
+  (Some (strip_query ns), rest).
+Proof. reflexivity. Qed.
+
+Lemma scan_ns_some r rest : existsb (N.eqb 44) r = false ->
+  scan_ns ((47 :: r) ++ 44 :: rest) = (Some (strip_query (47 :: r)), rest).
+Proof.
+  intro H. change ((47 :: r) ++ 44 :: rest) with (47 :: (r ++ 44 :: rest)).
+  rewrite scan_ns_slash. change (47 :: (r ++ 44 :: rest)) with ((47 :: r) ++ 44 :: rest).
+  rewrite find_app_notin.
+  - rewrite firstn_length_app, skipn_S_length_app. reflexivity.
+  - intros x [<-|Hx]; [discriminate|]. exact (existsb_eqb_false 44 r H x Hx).
+Qed.
+
+Lemma scan_ns_not_slash x r : x <> 47 -> scan_ns (x :: r) = (None, x :: r).
+Proof.
+  intro H. unfold scan_ns. destruct x as [|p]; [reflexivity|].
+  repeat (destruct p as [p|p|]; try reflexivity). exfalso; apply H; reflexivity.
+Qed.
+
+Lemma scan_ns_none a js : forallb is_digit a = true -> js_ok js ->
+  scan_ns (a ++ js) = (None, a ++ js).
+Proof.
+  intros Ha Hj. destruct a as [|c a].
+  - cbn [app]. destruct Hj as [->|(x & b & -> & _ & _ & Hx)]; [reflexivity|]. apply scan_ns_not_slash, Hx.
+  - cbn [app]. apply scan_ns_not_slash. cbn [forallb] in Ha. apply andb_true_iff in Ha as [Hc _].
+    apply is_digit_neq; [exact Hc|exact not_digit_slash].
+Qed.
+
+(* (d) id *)
+Lemma scan_id_some n js : (List.length (str_of_N n) <= 100)%nat -> js_ok js ->
+  scan_id (str_of_N n ++ js) = Ok (Some (Z.of_N n), js).
+Proof.
+  intros Hl Hj. pose proof (str_of_N_nonnil n) as Hnn.
+  pose proof (all_adigit_is_digit _ (str_of_N_adigit n)) as Hd.
+  pose proof (py_int_str_of_N n) as Hp.
+  destruct (str_of_N n) as [|c a] eqn:E; [contradiction|].
+  cbn [forallb] in Hd. apply andb_true_iff in Hd as [Hc Ha]. cbn [List.length] in Hl.
+  cbn [app]. unfold scan_id. rewrite Hc.
+  assert (Hjd : match js with [] => True | x :: _ => is_digit x = false end).
+  { destruct Hj as [->|(x & b & -> & Hx & _)]; [exact I|exact Hx]. }
+  rewrite (digit_run_exact a 99 js Ha) by (lia || exact Hjd). cbv zeta.
+  change (c :: a ++ js) with ((c :: a) ++ js).
+  change (S (List.length a)) with (List.length (c :: a)).
+  rewrite firstn_length_app, skipn_length_app, Hp. cbn [bind].
+  destruct js as [|x b]; [reflexivity|]. rewrite Hjd. reflexivity.
+Qed.
+
+Lemma scan_id_none js : js_ok js -> scan_id js = Ok (None, js).
+Proof.
+  intros [->|(x & b & -> & Hx & _)]; [reflexivity|]. unfold scan_id. rewrite Hx. reflexivity.
+Qed.
+
+Lemma ids_digits id : id_ok id -> forallb is_digit (ids_of id) = true.
+Proof.
+  destruct id as [i|]; [|reflexivity]. intros [H0 _]. cbn [ids_of].
+  rewrite str_of_Z_nonneg by exact H0. apply all_adigit_is_digit, str_of_N_adigit.
+Qed.
+
+Lemma scan_id_ids id js : id_ok id -> js_ok js -> scan_id (ids_of id ++ js) = Ok (id, js).
+Proof.
+  destruct id as [i|]; intros Hi Hj; cbn [ids_of app].
+  - destruct Hi as [H0 Hl]. rewrite str_of_Z_nonneg in * by exact H0.
+    rewrite scan_id_some by assumption. rewrite Z2N.id by exact H0. reflexivity.
+  - apply scan_id_none, Hj.
+Qed.
+
+Lemma js_ok_nodash js : js_ok js ->
+  js = [] \/ exists x b, js = x :: b /\ is_digit x = false /\ x <> 45.
+Proof. intros [->|(x & b & -> & Hx & H45 & _)]; [left; reflexivity|right; eauto 6]. Qed.
+
+(* the text after the count: namespace, id, JSON *)
+Lemma decode_rest_frame loads t count ns id js body :
+  ns_ok ns -> id_ok id -> js_ok js ->
+  (match js with [] => Ok PNone | _ => loads js end) = Ok body ->
+  decode_rest loads t count (nsp_of ns ++ ids_of id ++ js) =
+  Ok (mkR (mkPacket (PInt (Z.of_N t)) (ns_dec ns) id body) count []).
+Proof.
+  intros Hns Hid Hjs Hl. unfold decode_rest.
+  assert (Hrest : scan_ns (ids_of id ++ js) = (None, ids_of id ++ js)).
+  { apply scan_ns_none; [apply ids_digits, Hid|exact Hjs]. }
+  assert (Hfin : ('(id0, ep) <- scan_id (ids_of id ++ js) ;;
+                  data <- (match ep with [] => Ok PNone | _ => loads ep end) ;;
+                  Ok (mkR (mkPacket (PInt (Z.of_N t)) (ns_dec ns) id0 data) count []))
+                 = Ok (mkR (mkPacket (PInt (Z.of_N t)) (ns_dec ns) id body) count [])).
+  { rewrite scan_id_ids by assumption. cbn [bind]. rewrite Hl. reflexivity. }
+  unfold nsp_of, ns_dec in *. destruct ns as [s|].
+  - destruct Hns as (r & -> & Hr). destruct (str_eqb (47 :: r) [47]) eqn:E.
+    + cbn [app]. rewrite Hrest. exact Hfin.
+    + rewrite <- app_assoc. cbn [app]. change (47 :: r ++ 44 :: ids_of id ++ js) with ((47 :: r) ++ 44 :: ids_of id ++ js).
+      rewrite scan_ns_some by exact Hr. exact Hfin.
+  - cbn [app]. rewrite Hrest. exact Hfin.
+Qed.
+
+(* non-binary frame: type digit, namespace, id, JSON *)
+Theorem decode_str_nonbin loads t ns id js body : t < 10 ->
+  ns_ok ns -> id_ok id -> js_ok js ->
+  (match js with [] => Ok PNone | _ => loads js end) = Ok body ->
+  decode_str loads ((48 + t) :: nsp_of ns ++ ids_of id ++ js) =
+  Ok (mkR (mkPacket (PInt (Z.of_N t)) (ns_dec ns) id body) 0 []).
+Proof.
+  intros Ht Hns Hid Hjs Hl. rewrite decode_str_eq.
+  rewrite adigit_dec_val by (unfold adigit; lia). replace (48 + t - 48) with t by lia.
+  assert (Hc : scan_count (nsp_of ns ++ ids_of id ++ js) = Ok (0, nsp_of ns ++ ids_of id ++ js)).
+  { unfold nsp_of. destruct ns as [s|]; [destruct Hns as (r & -> & Hr); destruct (str_eqb (47 :: r) [47])|].
+    - cbn [app]. apply scan_count_none; [apply ids_digits, Hid|apply js_ok_nodash, Hjs].
+    - rewrite <- app_assoc. cbn [app]. apply (scan_count_none []); [reflexivity|].
+      right. eexists _, _. split; [reflexivity|]. split; [exact not_digit_slash|discriminate].
+    - cbn [app]. apply scan_count_none; [apply ids_digits, Hid|apply js_ok_nodash, Hjs]. }
+  rewrite Hc. cbn [bind]. apply decode_rest_frame; assumption.
+Qed.
+
+(* binary frame: type digit, count, '-', namespace, id, JSON *)
+Theorem decode_str_bin loads t n ns id js body : t < 10 -> n < 10000000000 ->
+  ns_ok ns -> id_ok id -> js_ok js ->
+  (match js with [] => Ok PNone | _ => loads js end) = Ok body ->
+  decode_str loads ((48 + t) :: (str_of_N n ++ [45]) ++ nsp_of ns ++ ids_of id ++ js) =
+  Ok (mkR (mkPacket (PInt (Z.of_N t)) (ns_dec ns) id body) n []).
+Proof.
+  intros Ht Hn Hns Hid Hjs Hl. rewrite decode_str_eq.
+  rewrite adigit_dec_val by (unfold adigit; lia). replace (48 + t - 48) with t by lia.
+  rewrite <- app_assoc. cbn [app]. rewrite scan_count_bin by exact Hn. cbn [bind].
+  apply decode_rest_frame; assumption.
 Qed.
